@@ -171,6 +171,39 @@ def ax_dollar_splice(tier):
     return None, 4 * k
 
 
+def ax_dollar_template(tier):
+    """Regex::replace with template "${head}" + (o with every `$` doubled) + "${tail}" yields head + o + tail (U-EXP3 replace shim)."""
+    lits = fn_literals('src/shell.rs', 'do_command_substitution_for_dollar')
+    splice = [l for l in lits if '(?P<head>' in l]
+    if len(splice) != 1:
+        raise LostAnchor('axcheck dollar_template: splice pattern not found')
+    n = 4 if tier == 'quick' else 5
+    ts = [t for t in strings(['a', '$', '(', ')'], n) if '$(' in t]
+    outs = ['x', '', '$1', '${a}', '$$', 'a$', '$', '$head', '\\1', '$(a)']
+    s = Session()
+    s.set(splice[0])
+    for t in ts:
+        s.caps(t)
+    for t in ts:
+        for o in outs:
+            s.replace('${head}' + o.replace('$', '$$') + '${tail}', t)
+    out = s.run()
+    k = len(ts)
+    cp = out[1:1 + k]; rp = out[1 + k:]
+    j = 0
+    for i, t in enumerate(ts):
+        c = parse_caps(cp[i])
+        for o in outs:
+            new = unhx(rp[j][4:]) if rp[j].startswith('rep ') and rp[j] != 'rep !' else None
+            j += 1
+            if not c:
+                continue
+            want = (c[0][1] or '') + o + (c[0][2] or '')
+            if new != want:
+                return {'string': t, 'detail': 'template replacement of %r with output %r gives %r, not head+output+tail %r' % (t, o, new, want)}, k * (1 + len(outs))
+    return None, k * (1 + len(outs))
+
+
 def ax_dot(tier):
     lits = [l for l in fn_literals('src/shell.rs', 'do_command_substitution_for_dot') if '`' in l and '(' in l]
     if len(lits) != 1:
@@ -193,7 +226,7 @@ def ax_dot(tier):
 AXIOMS = {
     'C01': [('re_gt', ax_re_gt)], 'C13': [('re_gt', ax_re_gt)], 'C04': [('re_gt', ax_re_gt)],
     'C15': [('args_ref', ax_args_ref)],
-    'C11': [('dollar_splice', ax_dollar_splice), ('dot', ax_dot)],
+    'C11': [('dollar_splice', ax_dollar_splice), ('dollar_template', ax_dollar_template), ('dot', ax_dot)],
     'C05': [('dollar_splice', ax_dollar_splice), ('dot', ax_dot), ('args_ref', ax_args_ref)],
 }
 
